@@ -281,3 +281,77 @@ Proof. exists [97; 45; 98]. vm_compute. split; reflexivity. Qed.
 Example python_identifier_valid_nonvacuous :
   good_prefix [102;105;101;108;100;95] = true /\ g_xid [72;101;108;108;111;32;87;246;114;108;100;45;49] = true.
 Proof. vm_compute. split; reflexivity. Qed.
+
+(* ---------- path-component safety of derived names (C19 writes_confined, C05 identifier slots) ---------- *)
+Definition path_char (x : N) : bool := negb (memN x [0; 34; 39; 46; 47; 92; 10; 13]).
+
+Lemma fact_word_path : forallb (fun x => negb (is_word x)) [0; 34; 39; 46; 47; 92; 10; 13] = true.
+Proof. vm_compute. reflexivity. Qed.
+Lemma fact_lower_path : map_preserves is_word path_char map_lower = true.
+Proof. vm_compute. reflexivity. Qed.
+Lemma fact_us_path : path_char 95 = true /\ path_char 45 = true.
+Proof. vm_compute. split; reflexivity. Qed.
+
+Lemma word_path_char c : is_word c = true -> path_char c = true.
+Proof.
+  intro Hw. unfold path_char. apply negb_true_iff. destruct (memN c _) eqn:E; [|reflexivity].
+  apply memN_In in E. pose proof fact_word_path as F. rewrite forallb_forall in F.
+  specialize (F _ E). rewrite Hw in F. discriminate.
+Qed.
+
+Lemma lower_c_path c : is_word c = true -> forallb path_char (lower_c c) = true.
+Proof. apply (map_preserves_sound is_word path_char map_lower fact_lower_path). exact word_path_char. Qed.
+
+Lemma cased_words_path value sep :
+  forallb path_char sep = true -> (forall c, In c sep -> lower_c c = [c]) ->
+  forallb path_char (lower (join sep (split_words (sanitize value)))) = true.
+Proof.
+  intros Hsep Hfix. unfold lower. apply forallb_forall. intros d Hd.
+  apply in_flat_map in Hd as [c [Hc Hd]].
+  apply join_In in Hc as [Hc|[w [Hw Hc]]].
+  - rewrite (Hfix _ Hc) in Hd. destruct Hd as [<-|[]].
+    rewrite forallb_forall in Hsep. now apply Hsep.
+  - assert (Hwd: is_word c = true).
+    { destruct (split_words_In _ _ _ Hw Hc) as [Hin Hnd].
+      apply sanitize_In in Hin as [_ Hwd]. now rewrite Hnd, orb_false_r in Hwd. }
+    pose proof (lower_c_path c Hwd) as Hl. rewrite forallb_forall in Hl. now apply Hl.
+Qed.
+
+Lemma fact_seps_fixed : lower_c 95 = [95] /\ lower_c 45 = [45].
+Proof. vm_compute. split; reflexivity. Qed.
+
+Lemma fix_reserved_path s : forallb path_char s = true -> forallb path_char (fix_reserved s) = true.
+Proof.
+  intro H. unfold fix_reserved. destruct (_ || _); [|exact H].
+  rewrite forallb_app, H. cbn [forallb]. destruct fact_us_path as [-> _]. reflexivity.
+Qed.
+
+Theorem python_identifier_path_chars value prefix :
+  forallb path_char prefix = true ->
+  forallb path_char (python_identifier value prefix false) = true.
+Proof.
+  intro Hp. unfold python_identifier.
+  assert (Hx: forallb path_char (fix_reserved (snake_case (sanitize value))) = true).
+  { apply fix_reserved_path. unfold snake_case. apply cased_words_path.
+    - cbn [forallb]. destruct fact_us_path as [-> _]. reflexivity.
+    - intros c [<-|[]]. apply fact_seps_fixed. }
+  destruct (_ || _); [|exact Hx]. now rewrite forallb_app, Hp, Hx.
+Qed.
+
+Theorem kebab_case_path_chars value : forallb path_char (kebab_case value) = true.
+Proof.
+  unfold kebab_case. apply cased_words_path.
+  - cbn [forallb]. destruct fact_us_path as [_ ->]. reflexivity.
+  - intros c [<-|[]]. apply fact_seps_fixed.
+Qed.
+
+Theorem python_identifier_nonempty value prefix :
+  good_prefix prefix = true -> python_identifier value prefix false <> [].
+Proof.
+  intro Hg. unfold python_identifier.
+  assert (Hpne: prefix <> []).
+  { unfold good_prefix in Hg. apply andb_true_iff in Hg as [Hg _]. destruct prefix; [discriminate | discriminate]. }
+  destruct (negb (is_identifier _) || starts_us value) eqn:E.
+  - intro H. apply app_eq_nil in H as [H _]. contradiction.
+  - apply orb_false_iff in E as [E _]. apply negb_false_iff in E. intro H. rewrite H in E. discriminate.
+Qed.
